@@ -54,12 +54,26 @@ theorem cnt_zero_eq_not_any (n : Nat) (av : Nat → Bool) : decide (cnt n av = 0
   simp only [lastDepotOf, Params.mdcpdpLastDepotCmp, Cmp.evalNat]; exact cnt_zero_eq_not_any _ _
 @[simp] theorem doneOf_eq (i : Inst) (av : Nat → Bool) : doneOf i av = !(anyIn i.N av) := by
   simp only [doneOf, Params.mdcpdpDoneCmp, Cmp.evalNat]; exact cnt_zero_eq_not_any _ _
-@[simp] theorem pairOff_eq (i : Inst) : i.pairOff = i.h := by simp [Inst.pairOff, Inst.h, Params.mdcpdpPairDiv]
+@[simp] theorem pairOff_eq (i : Inst) : i.pairOff = i.h := by
+  simp [Inst.pairOff, Inst.h, Params.mdcpdpPairDiv, Params.mdcpdpPdDiv]
+/-- `h` is half the number of customers (obligation on `Params.mdcpdpPdDiv`) -/
+theorem h_eq (i : Inst) : i.h = (i.N - i.K) / 2 := by simp [Inst.h, Params.mdcpdpPdDiv]
+@[simp] theorem pickTest_eq (i : Inst) (a : Nat) : pickTest i a = decide (i.K ≤ a ∧ a < i.pd) := by
+  simp [pickTest, Params.mdcpdpPickLtCmp, Params.mdcpdpPickGeCmp, Cmp.evalNat, Bool.and_comm]
+@[simp] theorem delivTest_eq (i : Inst) (a : Nat) : delivTest i a = decide (i.pd ≤ a) := by
+  simp [delivTest, Params.mdcpdpDelivGeCmp, Cmp.evalNat]
+@[simp] theorem depotLeg_eq (i : Inst) (cur a : Nat) : depotLeg i cur a = decide (a < i.K ∧ cur < i.K) := by
+  simp [depotLeg, Params.mdcpdpLegToCmp, Params.mdcpdpLegFromCmp, Cmp.evalNat]
 @[simp] theorem openZero_eq (i : Inst) (cur a : Nat) :
     openZero i cur a = (i.openMode && decide (a < i.K) && decide (i.K ≤ cur)) := by
   simp [openZero, Params.mdcpdpOpenToCmp, Params.mdcpdpOpenFromCmp, Cmp.evalNat]
 /-- the bundled generator does not emit one capacity per depot (obligation on `Params.mdcpdpGenCapPerDepot`) -/
 theorem genCapLen_eq (numDepot : Nat) : genCapLen numDepot = 1 := by simp [genCapLen, Params.mdcpdpGenCapPerDepot]
+
+/-- the source updates `current_depot` only on a return (obligation on `Params.mdcpdpDepotOnVisit`) -/
+@[simp] theorem depotSel_asCoded (i : Inst) (back : Bool) (a : Nat) :
+    depotSel Params.mdcpdpDepotOnVisit i back a = back := by
+  simp [depotSel, Params.mdcpdpDepotOnVisit]
 
 theorem mod_cases (x n : Nat) (hx : x < 2 * n) : x % n = if x < n then x else x - n := by
   split
@@ -74,15 +88,17 @@ theorem mod_cases (x n : Nat) (hx : x < 2 * n) : x % n = if x < n then x else x 
     (step i s a).avail = upd s.avail a false := rfl
 @[simp] theorem step_td (i : Inst) (s : State) (a : Nat) :
     (step i s a).toDeliver = upd s.toDeliver ((a + i.h) % i.N) true := by
-  simp [step]
+  simp [step, stepF]
 @[simp] theorem step_carry (i : Inst) (s : State) (a : Nat) :
     (step i s a).carry =
-      s.carry + (if i.K ≤ a ∧ a < i.pd then 1 else 0) - (if i.pd ≤ a then 1 else 0) := rfl
+      s.carry + (if i.K ≤ a ∧ a < i.pd then 1 else 0) - (if i.pd ≤ a then 1 else 0) := by
+  simp [step, stepF]
 @[simp] theorem step_depot (i : Inst) (s : State) (a : Nat) :
-    (step i s a).depot = if backFlag i s a then a else s.depot := rfl
+    (step i s a).depot = if backFlag i s a then a else s.depot := by
+  simp [step, stepF]
 @[simp] theorem step_done (i : Inst) (s : State) (a : Nat) :
     (step i s a).done = !(anyIn i.N (upd s.avail a false)) := by
-  simp [step]
+  simp [step, stepF]
 theorem step_mask (i : Inst) (s : State) (a : Nat) :
     (step i s a).mask = maskOf i (backFlag i s a) (step i s a).avail (step i s a).toDeliver
       (step i s a).carry (step i s a).depot (step i s a).done := rfl
